@@ -1,4 +1,22 @@
-(* placeholder until the proofs are integrated *)
-From DictIO Require Import Chars Str Value Scalar.
-Theorem C03_placeholder : True. Proof. exact I. Qed.
-Print Assumptions C03_placeholder.
+(* C03  Parsed output is a fixed point (mechanism-level theorems; the end-to-end fixed point over n cycles is
+   established per run by the check, see DESIGN.md). *)
+From Coq Require Import NArith ZArith List Bool.
+From DictIO Require Import Chars Str Value Scalar SDict Layout Lexer LayoutSpec LayoutProofs.
+Import ListNotations.
+
+(* writing normalises trailing white space once and for all: a second pass changes nothing *)
+Theorem C03_trailing_spaces_idem : forall s, remove_trailing_spaces (remove_trailing_spaces s) = remove_trailing_spaces s.
+Proof. exact remove_trailing_spaces_idem. Qed.
+Print Assumptions C03_trailing_spaces_idem.
+
+(* the header is not re-inserted on later cycles *)
+Theorem C03_header_stable : forall bc, make_default_block_comment (make_default_block_comment bc) = make_default_block_comment bc.
+Proof. exact default_header_idem. Qed.
+Print Assumptions C03_header_stable.
+
+(* placeholders are an injective numbering: two different ids never spell the same placeholder, so re-reading
+   never confuses two comments / includes *)
+Theorem C03_counter_free_placeholder : forall w i j, (i < 1000000)%N -> (j < 1000000)%N ->
+  placeholder w i = placeholder w j -> i = j.
+Proof. exact placeholder_injective. Qed.
+Print Assumptions C03_counter_free_placeholder.
